@@ -46,15 +46,78 @@ theorem chunked_total (buf : Nat) (max : Option Nat) (cl : Int) (r : Rec) (e : E
     (h : (bodyRead buf cl true max r).1 = .error e) :
     e = .bodyParsingError ∨ e = .bodySizeError := by
   simp only [bodyRead, if_true] at h
-  exact iterChunked_err buf max _ r {} e rfl h
+  rcases iterChunked_err buf max _ r {} e rfl h with h | h
+  · exact Or.inl h
+  · exact Or.inr h.1
 
 /-- the same for Content-Length framing: the only error is `BodySizeError` -/
 theorem cl_total (buf : Nat) (max : Option Nat) (cl : Int) (r : Rec) (e : Err)
     (h : (bodyRead buf cl false max r).1 = .error e) : e = .bodySizeError := by
   simp only [bodyRead, iterBody, Bool.false_eq_true, if_false] at h
   rcases readParts_err false buf max _ r {} e h with h | ⟨h, -⟩
-  · exact h
+  · exact h.1
   · cases h
+
+/-- **every truncation is rejected**: if the stream ends anywhere before the LF of the terminating
+zero-size line of a legal encoding (inside a size line, inside chunk data, inside or before a
+CRLF, at a chunk boundary), the reader raises — `BodyParsingError`, or `BodySizeError` when the
+part received already exceeds a configured limit — for every buffer size and read fragmentation;
+a partial body is never returned. -/
+theorem chunked_prefix_rejected (buf : Nat) (max : Option Nat) (cl : Int) (chunks : List Chunk)
+    (ls le trailer : Bytes) (r : Rec) (i : Nat)
+    (hleg : ∀ c ∈ chunks, LegalChunk c) (hl : LegalLine ls le)
+    (hd : r.st.data = (encodeChunked chunks ls le trailer).take i)
+    (hi : i < (encodeChunks chunks).length + ls.length + le.length + 2) :
+    ((bodyRead buf cl true max r).1 = .error .bodyParsingError ∨
+      (bodyRead buf cl true max r).1 = .error .bodySizeError) ∧
+    (max = none → (bodyRead buf cl true max r).1 = .error .bodyParsingError) := by
+  obtain ⟨e, he⟩ := iterChunked_prefix buf max ls le trailer hl chunks r {} i hleg hd hi (SinkInv.init buf)
+    (by cases max <;> simp [overMax])
+  simp only [bodyRead, if_true]
+  rw [he]
+  rcases iterChunked_err buf max _ r {} e rfl he with h | ⟨h, hm⟩
+  · subst h; exact ⟨Or.inl rfl, fun _ => rfl⟩
+  · subst h; exact ⟨Or.inr rfl, fun hn => absurd hn hm⟩
+
+/-- **a chunk's data must be followed by CRLF**: after any number of complete legal chunks, a
+legal size line and its data followed by any two bytes other than CR LF (or by fewer than two
+bytes) is a `BodyParsingError`, whether the two bytes arrive together or one at a time. -/
+theorem chunked_missing_crlf (buf : Nat) (max : Option Nat) (cl : Int) (pre : List Chunk) (c : Chunk)
+    (x : Bytes) (r : Rec)
+    (hpre : ∀ c ∈ pre, LegalChunk c ∧ c.spelling.length + c.ext.length + 2 ≤ buf)
+    (hc : LegalChunk c) (hfit : c.spelling.length + c.ext.length + 2 ≤ buf)
+    (hd : r.st.data = encodeChunks pre ++ (c.spelling ++ c.ext ++ CRLF ++ (c.payload ++ x)))
+    (hx : x.take 2 ≠ CRLF)
+    (hmax : overMax max ((payloadOf pre).length + c.payload.length) = false) :
+    (bodyRead buf cl true max r).1 = .error .bodyParsingError := by
+  obtain ⟨r', he, hd', -⟩ := chunks_skip buf max pre _ r {} hpre hd (SinkInv.init buf)
+    (overMax_mono max _ _ (by simp) hmax)
+  have hplen : 0 < c.payload.length := List.length_pos_iff.mpr hc.nonempty
+  obtain ⟨-, -, s3, -⟩ := line_step buf max c.spelling c.ext (c.payload ++ x) c.payload.length r'
+    (Sink.extend buf {} (payloadOf pre)) hc.line hc.size hplen hfit hd' (Sink.extend_inv buf {} _ (SinkInv.init buf))
+  simp only [bodyRead, if_true]
+  rw [he]
+  apply s3
+  · simp only [Sink.extend, Nat.zero_add, List.length_append]
+    rw [Nat.min_eq_left (by omega)]
+    exact hmax
+  · simp
+  · rw [List.drop_left]; exact hx
+
+/-- **the size-line bound is a rejection, never a wrong body**: a legal size line (of a chunk or
+of the last-chunk) that is, CRLF included, longer than the buffer is a `BodyParsingError`. -/
+theorem chunked_long_line_rejected (buf : Nat) (max : Option Nat) (cl : Int) (pre : List Chunk)
+    (sp ext rest : Bytes) (r : Rec)
+    (hpre : ∀ c ∈ pre, LegalChunk c ∧ c.spelling.length + c.ext.length + 2 ≤ buf)
+    (hl : LegalLine sp ext)
+    (hd : r.st.data = encodeChunks pre ++ (sp ++ ext ++ CRLF ++ rest))
+    (hlong : sp.length + ext.length + 2 > buf)
+    (hmax : overMax max (payloadOf pre).length = false) :
+    (bodyRead buf cl true max r).1 = .error .bodyParsingError := by
+  obtain ⟨r', he, hd', -⟩ := chunks_skip buf max pre _ r {} hpre hd (SinkInv.init buf) (by simpa using hmax)
+  simp only [bodyRead, if_true]
+  rw [he]
+  exact iterChunked_scan_err buf max r' _ _ (scanLine_long buf sp ext rest r' hl hd' hlong)
 
 /-- with the `errors_map` of the source both client errors of the body reader are answered 4xx -/
 theorem chunked_400 (e : Err) (h : e = .bodyParsingError ∨ e = .bodySizeError) :
@@ -75,6 +138,15 @@ example : LegalEncoding 8
     · exact ⟨⟨⟨by decide, Or.inl rfl⟩, by decide, by decide⟩, by decide⟩
     · exact ⟨⟨⟨by decide, Or.inr ⟨[120], rfl, by decide⟩⟩, by decide, by decide⟩, by decide⟩,
    ⟨by decide, Or.inl rfl⟩, by decide, by decide⟩
+/-- `chunked_prefix_rejected`: a cut right before the final LF of `2\r\nhi\r\n0\r\n` -/
+example : (9 : Nat) < (encodeChunks [⟨[104, 105], [50], []⟩]).length + ([48] : Bytes).length + ([] : Bytes).length + 2 := by
+  decide
+/-- `chunked_missing_crlf`: `CR CR`, `LF`, nothing -/
+example : ([13, 13, 48] : Bytes).take 2 ≠ CRLF ∧ ([10] : Bytes).take 2 ≠ CRLF ∧ ([] : Bytes).take 2 ≠ CRLF := by decide
+/-- `chunked_long_line_rejected`: the line `00002;ext\r\n` (11 bytes) against a buffer of 8 -/
+example : LegalLine [48, 48, 48, 48, 50] [59, 101, 120, 116] ∧
+    ([48, 48, 48, 48, 50] : Bytes).length + ([59, 101, 120, 116] : Bytes).length + 2 > 8 :=
+  ⟨⟨by decide, Or.inr ⟨[101, 120, 116], rfl, by decide⟩⟩, by decide⟩
 end NonVacuity
 
 end Ombott.Chunked
